@@ -1764,3 +1764,58 @@ def return_census(ctx, crate, files):
                   "%s can now answer with %s, which it never did in the reviewed tree: a shortcut that answers with a constant, or hands the question to another operation, in front of the computation the function is there for" % (short(b.id), new),
                   where_of(b))
     ctx.info("functions compared with the return-source table: %d" % n)
+
+
+# ---------------------------------------------------------------------------- fresh slots are drawn where they are used
+def _is_fresh_fn(x):
+    return isinstance(x, tuple) and x[0] == "fnconst" and str(x[1]).replace(" ", "").endswith("Slot::fresh")
+
+
+def fresh_hoist_census(ctx, crate):
+    """FH: a value drawn from Slot::fresh() (directly, or through `cond.then(Slot::fresh)` and the like) outside a loop is not
+    consumed inside one, and a per-element closure does not use a fresh slot drawn outside it.  Expected count: zero; the
+    census of fresh sites inside loops is the positive control (floor)."""
+    in_loop = 0
+    for b in crate.bodies.values():
+        if not (b.file or "").startswith("src/") or (b.file or "").endswith("tst.rs") or crate.root_of(b).auto_derived:
+            continue
+        src = {}
+        for cs in b.calls:
+            if b.blocks[cs.bb]["cleanup"] or not cs.callee:
+                continue
+            if cs.callee.name == "fresh" and "Slot" in (cs.callee.target or ""):
+                src[cs.bb] = "Slot::fresh()"
+            elif any(_is_fresh_fn(strip_role(b.role_of_operand(a))) for a in cs.args):
+                src[cs.bb] = "%s(.., Slot::fresh)" % cs.callee.name
+        if b.kind == "Closure":
+            # a fresh slot that reaches the closure from outside (captured), while the closure draws none itself
+            own = set(src)
+            for cs in b.calls:
+                if b.blocks[cs.bb]["cleanup"]:
+                    continue
+                for a in cs.args:
+                    for x in role_walk(b.role_of_operand(a)):
+                        if isinstance(x, tuple) and x[0] == "call" and x[1] == "fresh" and len(x) > 4 and x[4] not in own and cs.callee and cs.callee.name in ("insert", "push", "or_insert", "apply_slotmap", "apply_slotmap_fresh"):
+                            ctx.bad("fresh-hoisted:" + fkey(crate.root_of(b)), "a closure of %s inserts a fresh slot that was drawn OUTSIDE the closure: every element it is applied to gets the same slot" % short(crate.root_of(b).id), where_of(b, cs.bb))
+        if not src:
+            continue
+        loops = iterator_loops(b)
+        bodies_ = [(l, loop_body(b, l)) for l in loops]
+        for sbb, what in src.items():
+            if any(sbb in lb for _, lb in bodies_):
+                in_loop += 1
+            for l, lb in bodies_:
+                if sbb in lb:
+                    continue
+                hit = None
+                for c2 in b.calls:
+                    if c2.bb in lb and not b.blocks[c2.bb]["cleanup"]:
+                        for a in c2.args:
+                            if any(isinstance(x, tuple) and x[0] == "call" and len(x) > 4 and x[4] == sbb and (x[1] == "fresh" or what.startswith(x[1] + "(")) for x in role_walk(b.role_of_operand(a))):
+                                hit = c2
+                if hit is not None:
+                    ctx.bad("fresh-hoisted:" + fkey(crate.root_of(b)),
+                            "%s draws %s in front of a loop and uses the value inside it (%s): every iteration gets the SAME slot where each needs a brand-new one — two different slots are renamed to one name" % (short(crate.root_of(b).id), what, hit.callee.name if hit.callee else "?"),
+                            where_of(b, hit.bb))
+    ctx.floor("Slot::fresh sites inside loops (positive control)", in_loop, 6)
+    ctx.ok("fresh-not-hoisted", "no fresh slot drawn outside a loop / per-element closure is consumed inside it (%d sites draw inside their loop)" % in_loop)
